@@ -88,7 +88,7 @@ def parse_charset(s):
 
 
 US_OPS = ['add', 'add', 'add', 'discard', 'discard', 'update', 'difference_update', 'ior', 'isub', 'iand', 'ixor',
-          'or', 'sub', 'and', 'xor', 'complement', 'copy', 'clear', 'new', 'observe', 'add-invalid', 'shared-copy']
+          'or', 'sub', 'and', 'xor', 'complement', 'copy', 'clear', 'new', 'observe', 'add-invalid', 'shared-copy', 'rsub']
 CC_OPS = ['cc-new', 'cc-add', 'cc-add', 'cc-discard', 'cc-complement', 'cc-isub', 'cc-sub', 'cc-copy', 'cc-clear',
           'cc-observe', 'cc-isub-text']
 CC_ESCAPES = ['\\s', '\\S', '\\d', '\\D', '\\w', '\\W', '\\n', '\\t', '\\-', '\\\\', '\\p{Lu}', '\\P{Lu}', '\\p{Nd}',
@@ -168,6 +168,12 @@ def gen_case(rng, tier):
                     op = {'op': name, 'obj': i, 'text': charset_string(rng)}
                 else:
                     op = {'op': name, 'obj': i, 'vals': [pick_value(rng, m) for _ in range(rng.choice([1, 2, 3, 5]))]}
+            elif name == 'rsub':
+                small = [j for j in us_idx if B.popcount(models[j][1]) <= 3000]
+                if small:
+                    op = {'op': 'rsub', 'obj': i, 'other': rng.choice(small), 'wrap': rng.choice(['cp-tuple', 'cp-tuple', 'list'])}
+                else:
+                    op = {'op': 'observe', 'obj': i}
             elif name in ('ior', 'isub', 'iand', 'ixor', 'or', 'sub', 'and', 'xor'):
                 x = rng.random()
                 elementwise = name in ('iand', 'ixor', 'and', 'xor')
@@ -306,6 +312,8 @@ def apply_model(op, models):
             models.append(('us', get(op['obj']) | operand()))
         elif name == 'sub':
             models.append(('us', get(op['obj']) & ~operand()))
+        elif name == 'rsub':
+            models.append(('us', operand() & ~get(op['obj'])))
         elif name == 'and':
             models.append(('us', get(op['obj']) & operand()))
         elif name == 'xor':
@@ -566,6 +574,8 @@ def run_case(case, world):
                 objs.append(o | operand())
             elif name == 'sub':
                 objs.append(o - operand())
+            elif name == 'rsub':
+                objs.append(operand() - o)      # the reflected operator: a tuple of entries minus the subset
             elif name == 'and':
                 objs.append(o & operand())
             elif name == 'xor':
@@ -693,7 +703,7 @@ def run_case(case, world):
             models.pop()
         if len(objs) > len(models):
             objs.pop()
-        if name in ('or', 'sub', 'and', 'xor', 'complement', 'copy', 'new', 'shared-copy', 'cc-new', 'cc-copy') and objs:
+        if name in ('or', 'sub', 'rsub', 'and', 'xor', 'complement', 'copy', 'new', 'shared-copy', 'cc-new', 'cc-copy') and objs:
             touched.add(len(objs) - 1)
         stats['objects'] = len(objs)
         check_all(name, feats, touched)
